@@ -18,12 +18,14 @@ package c10
 // their content.
 
 import (
+	"bytes"
 	"fmt"
 	"math/big"
 	"strings"
 
 	"github.com/DOSNetwork/core/group/bn256"
 	"github.com/dedis/kyber"
+	google "github.com/ethereum/go-ethereum/crypto/bn256/google"
 
 	"verifharness/internal/h"
 )
@@ -366,6 +368,26 @@ func execKT(w []string, res *h.Result) {
 			outs = append(outs, hexFes(x[:]))
 		}
 	}
+	// optional trailing words: the discrete logarithms (w.r.t. e(G1,G2)) of the GT operands, "-" if the operand is
+	// not a known power of the generator. With them the oracle is crypto/bn256/google's GT (e(G1,G2)^k computed by
+	// ITS pairing and ITS exponentiation), which does not restate "Neg = conjugate" (review F #4).
+	dlog := func(i int) *big.Int {
+		if i < len(w) && w[i] != "-" {
+			return h.BigDec(w[i])
+		}
+		return nil
+	}
+	googlePow := func(k *big.Int) []byte {
+		k = new(big.Int).Mod(k, refOrder)
+		if k.Sign() == 0 {
+			return bytesGT(r12one())
+		}
+		return new(google.GT).ScalarMult(googleGTGen, k).Marshal()
+	}
+	isNull := func(p kyber.Point) bool {
+		x := raw(p)
+		return allReduced(x[:]) && r12eq(decR12(x[:]), r12one()) && p.Equal(g.Point().Null())
+	}
 	switch op {
 	case "add", "sub":
 		alias := w[2]
@@ -379,6 +401,32 @@ func execKT(w []string, res *h.Result) {
 		r := raw(pc)
 		emit(pc, pa, pb)
 		res.Class += "-" + alias
+		if ka, kb := dlog(6), dlog(7); ka != nil && kb != nil && alias != "ab" && alias != "cab" {
+			res.Class += "-dlog"
+			k := new(big.Int).Add(ka, kb)
+			if op == "sub" {
+				k.Sub(ka, kb)
+			}
+			if !allReduced(r[:]) || !bytes.Equal(bytesGT(decR12(r[:])), googlePow(k)) {
+				res.Oracle = "c10-kt-" + op + "-group: e(G1,G2)^a " + op + " e(G1,G2)^b is not e(G1,G2)^(a" + map[string]string{"add": "+", "sub": "-"}[op] + "b) of bn256/google"
+				break
+			}
+		} else if ka != nil && (alias == "ab" || alias == "cab") {
+			// both operands are the first one: a + a = a^2, a - a = Null
+			res.Class += "-dlog"
+			k := new(big.Int).Lsh(ka, 1)
+			if op == "sub" {
+				k.SetInt64(0)
+			}
+			if !allReduced(r[:]) || !bytes.Equal(bytesGT(decR12(r[:])), googlePow(k)) {
+				res.Oracle = "c10-kt-" + op + "-group: a " + op + " a wrong for a = e(G1,G2)^k (bn256/google)"
+				break
+			}
+			if op == "sub" && !isNull(pc) {
+				res.Oracle = "c10-kt-sub-group: a - a is not Null() for a member of GT"
+				break
+			}
+		}
 		if allReduced(av[:]) && allReduced(bv[:]) {
 			B := decR12(bv[:])
 			if op == "sub" {
@@ -402,6 +450,29 @@ func execKT(w []string, res *h.Result) {
 		r := raw(pc)
 		emit(pc, pa)
 		res.Class += "-" + alias
+		if ka := dlog(5); ka != nil {
+			res.Class += "-dlog"
+			k := new(big.Int).Set(ka)
+			if op == "neg" {
+				k.Neg(k)
+			}
+			if !allReduced(r[:]) || !bytes.Equal(bytesGT(decR12(r[:])), googlePow(k)) {
+				res.Oracle = "c10-kt-" + op + "-group: result is not e(G1,G2)^(" + k.String() + ") of bn256/google"
+				break
+			}
+			if op == "neg" {
+				// the inverse law through the API: a + (-a) = Null, a - a = Null (a rebuilt from the case line)
+				a := mk(w[4])
+				if s := g.Point().Add(a, pc); !isNull(s) {
+					res.Oracle = "c10-kt-neg-group: a + (-a) is not Null() for a member of GT"
+					break
+				}
+				if d := g.Point().Sub(a, a); !isNull(d) {
+					res.Oracle = "c10-kt-neg-group: a - a is not Null() for a member of GT"
+					break
+				}
+			}
+		}
 		if allReduced(av[:]) {
 			want := decR12(av[:])
 			if op == "neg" {
@@ -420,6 +491,13 @@ func execKT(w []string, res *h.Result) {
 		r := raw(pc)
 		emit(pc, pa)
 		res.Class += "-" + kyScalarClass(k) + "-" + alias
+		if ka := dlog(6); ka != nil {
+			res.Class += "-dlog"
+			if !allReduced(r[:]) || !bytes.Equal(bytesGT(decR12(r[:])), googlePow(new(big.Int).Mul(ka, k))) {
+				res.Oracle = "c10-kt-mul-group: (e(G1,G2)^a)^k is not e(G1,G2)^(ak) of bn256/google"
+				break
+			}
+		}
 		if allReduced(av[:]) {
 			if !allReduced(r[:]) || !r12eq(decR12(r[:]), r12exp(decR12(av[:]), kmodr(k))) {
 				res.Oracle = "c10-kt-mul: not a^(k mod r) in F_p^12"
@@ -614,7 +692,11 @@ func genKyber(tier string, rng *h.Rng, emit func(string)) {
 	// GT: elements of the order-r subgroup (powers of the generator) and arbitrary reduced elements
 	gen := bn256.VerifGTGen()
 	gtGen := decR12(func() []fe { x := fromFp12(&gen); return x[:] }())
-	gtPow := func() string { return hexFes(encR12(r12exp(gtGen, rng.Big(refOrder)))) }
+	// a member of GT with its discrete logarithm: e(a·G1, b·G2) = e(G1,G2)^(ab) (the value of a pairing)
+	gtPow := func() (string, string) {
+		k := rng.Big(refOrder)
+		return hexFes(encR12(r12exp(gtGen, k))), k.String()
+	}
 	gtRand := func() string {
 		var fs []fe
 		for i := 0; i < 12; i++ {
@@ -622,28 +704,46 @@ func genKyber(tier string, rng *h.Rng, emit func(string)) {
 		}
 		return hexFes(fs)
 	}
-	gtAny := func() string {
+	// any reduced gfP12 value (a pointGT can hold one: Miller values, decoded byte strings) or a member; "-" = no dlog
+	gtAny := func() (string, string) {
 		if rng.Intn(3) == 0 {
-			return gtRand()
+			return gtRand(), "-"
 		}
 		return gtPow()
 	}
+	gtRecv := func() string { v, _ := gtAny(); return v }
 	for i := 0; i < 10*scale; i++ {
 		al := aliases[i%5]
-		emit(fmt.Sprintf("kt add %s %s %s %s", al, gtAny(), gtAny(), gtAny()))
-		emit(fmt.Sprintf("kt sub %s %s %s %s", al, gtAny(), gtAny(), gtAny()))
+		a, ka := gtAny()
+		b, kb := gtAny()
+		emit(fmt.Sprintf("kt add %s %s %s %s %s %s", al, gtRecv(), a, b, ka, kb))
+		a, ka = gtAny()
+		b, kb = gtAny()
+		emit(fmt.Sprintf("kt sub %s %s %s %s %s %s", al, gtRecv(), a, b, ka, kb))
+		// members only: the group laws against bn256/google, incl. a - a (alias ab / cab) and a - b with b = a as values
+		a, ka = gtPow()
+		b, kb = gtPow()
+		if i%3 == 0 {
+			b, kb = a, ka
+		}
+		emit(fmt.Sprintf("kt sub %s %s %s %s %s %s", al, gtRecv(), a, b, ka, kb))
 	}
 	for i := 0; i < 4*scale; i++ {
-		emit(fmt.Sprintf("kt neg %s %s %s", una[i%2], gtAny(), gtAny()))
-		emit(fmt.Sprintf("kt set %s %s %s", una[i%2], gtAny(), gtAny()))
-		emit("kt null " + gtAny())
-		emit("kt base " + gtAny())
+		a, ka := gtAny()
+		emit(fmt.Sprintf("kt neg %s %s %s %s", una[i%2], gtRecv(), a, ka))
+		a, ka = gtPow()
+		emit(fmt.Sprintf("kt neg %s %s %s %s", una[(i+1)%2], gtRecv(), a, ka))
+		a, ka = gtAny()
+		emit(fmt.Sprintf("kt set %s %s %s %s", una[i%2], gtRecv(), a, ka))
+		emit("kt null " + gtRecv())
+		emit("kt base " + gtRecv())
 	}
 	for i, k := range kyScalars {
 		if i%2 == 0 || tier == "thorough" {
-			emit(fmt.Sprintf("kt mul %s %s %s %s", una[i%2], gtAny(), gtPow(), k))
+			a, ka := gtPow()
+			emit(fmt.Sprintf("kt mul %s %s %s %s %s", una[i%2], gtRecv(), a, k, ka))
 		}
 	}
-	emit(fmt.Sprintf("kt mulnil %s %s", gtAny(), kyScalars[3]))
-	emit(fmt.Sprintf("kt mulnil %s %s", gtAny(), big.NewInt(-1)))
+	emit(fmt.Sprintf("kt mulnil %s %s", gtRecv(), kyScalars[3]))
+	emit(fmt.Sprintf("kt mulnil %s %s", gtRecv(), big.NewInt(-1)))
 }
